@@ -16,8 +16,9 @@ namespace MdVerif.TrajModel
 
 variable {F T : Type}
 
-theorem c03_step_inv (ops : FrameOps F T) (w : World F T) (op : Op F) (hI : Inv ops w) : Inv ops (step ops w op) := by
+theorem c03_step_inv (ops : FrameOps F T) (w : World F T) (op : Op F) (hI : Inv ops w) (hs : Safe w op) : Inv ops (step ops w op) := by
   cases op with
+  | assignSame i fs => exact inv_assignSame ops w i fs hI hs
   | getitem i k =>
     cases hi : w.trajs[i]? with
     | none => simp only [step, hi]; exact hI
@@ -274,11 +275,22 @@ theorem c03_step_inv (ops : FrameOps F T) (w : World F T) (op : Op F) (hI : Inv 
 
 /-- **C03, cache invariant over histories**: after any finite sequence of operations every trajectory has all
 fields at one length and a cache that is either absent or the traces of its current, centred coordinates. -/
-theorem c03_cache_invariant (ops : FrameOps F T) (w : World F T) (l : List (Op F)) (hI : Inv ops w) :
+theorem c03_cache_invariant (ops : FrameOps F T) (w : World F T) (l : List (Op F)) (hI : Inv ops w) (hs : SafeRun ops w l) :
     Inv ops (run ops w l) := by
   induction l generalizing w with
   | nil => exact hI
-  | cons op l ih => exact ih _ (c03_step_inv ops w op hI)
+  | cons op l ih => exact ih _ (c03_step_inv ops w op hI hs.1) hs.2
+
+/-- histories made of the other operations are always safe: the side condition concerns `assignSame` alone -/
+theorem c03_safe_without_assignSame (ops : FrameOps F T) (w : World F T) (l : List (Op F))
+    (h : ∀ op ∈ l, ∀ i fs, op ≠ .assignSame i fs) : SafeRun ops w l := by
+  induction l generalizing w with
+  | nil => trivial
+  | cons op l ih =>
+    refine ⟨?_, ih _ (fun o ho => h o (by simp [ho]))⟩
+    cases op with
+    | assignSame i fs => exact absurd rfl (h _ (by simp) i fs)
+    | _ => trivial
 
 /-- a freshly constructed trajectory (fresh storage, no cache) satisfies the invariant -/
 theorem c03_invariant_init (ops : FrameOps F T) (fs : List F) (time : List Int) (cell : Option (List Int)) (n : Nat)
@@ -402,5 +414,46 @@ theorem c03_center_restores (ops : FrameOps F T) (w : World F T) (i : Nat) (t : 
     rw [hself] at hf
     obtain ⟨f0, _, rfl⟩ := List.mem_map.mp hf
     exact ops.center_idem f0
+
+/-! ## in-place assignment through a view: the side condition of `c03_cache_invariant` is needed -/
+
+def idOps : FrameOps Nat Nat where
+  center := id
+  centerW := id
+  trace := id
+  pick := fun _ f => f
+  hcat := fun a _ => a
+  sup := fun a _ => a
+  center_idem := fun _ => rfl
+
+/-- a centred two-frame trajectory with its cache, and a `slice(copy=False)` view of its first frame -/
+def aliasWorld : World Nat Nat :=
+  { heap := [5, 6],
+    trajs := [{ rows := [0, 1], time := [0, 1], cell := none, traces := some [5, 6], natoms := 1 },
+              { rows := [0], time := [0], cell := none, traces := some [5], natoms := 1 }] }
+
+/-- **the side condition is needed** (known finding C03 `cache|alias|in-place-assignment`): with a view that shares storage, `v.xyz += c`
+on the view leaves the cache of the source describing coordinates it no longer has -/
+theorem c03_assignSame_alias_witness :
+    Inv idOps aliasWorld ∧ ¬ Inv idOps (step idOps aliasWorld (.assignSame 1 [9])) := by
+  constructor
+  · intro t ht
+    simp only [aliasWorld, List.mem_cons, List.mem_nil_iff, or_false] at ht
+    rcases ht with rfl | rfl
+    · refine ⟨⟨rfl, by simp, by simp, by simp [aliasWorld]⟩, ?_⟩
+      intro tr htr
+      simp only [Option.some.injEq] at htr
+      subst htr
+      simp [frames, gather, idOps, aliasWorld]
+    · refine ⟨⟨rfl, by simp, by simp, by simp [aliasWorld]⟩, ?_⟩
+      intro tr htr
+      simp only [Option.some.injEq] at htr
+      subst htr
+      simp [frames, gather, idOps, aliasWorld]
+  · intro h
+    have h0 := h { rows := [0, 1], time := [0, 1], cell := none, traces := some [5, 6], natoms := 1 }
+      (by simp [step, aliasWorld])
+    have := (h0.2 [5, 6] rfl).1
+    simp [step, aliasWorld, frames, gather, writeAt, idOps] at this
 
 end MdVerif.TrajModel
